@@ -140,6 +140,12 @@ func mergeAndValidateOIDCConfigs(cfg *configv1.Config) error {
 				f.Type = &configv1.Filter_Oidc{Oidc: oidc}
 			}
 
+			if f.GetOidc() == nil {
+				// The filter has no type at all. There is nothing to merge or default here;
+				// the final validation rejects it, as the filter type is required.
+				continue
+			}
+
 			if f.GetOidc().GetConfigurationUri() == "" {
 				if f.GetOidc().GetAuthorizationUri() == "" {
 					errs = append(errs, fmt.Errorf("%w: missing authorization URI in chain %q", ErrRequiredURL, fc.Name))
